@@ -629,7 +629,10 @@ impl<'a> IExec<'a> {
         }
         ctx.count(&format!("op.{}.{}.{}", func, label, res.out.class()));
         if let Some(why) = expect {
-            must_fail(ctx, &res, &["C18"], &format!("deploy_remote/accepted:{}", why), why);
+            // refused for a reason of its own — and if, on top of that, the caller / payer authorised nothing,
+            // going through is also acting without the named address's authorisation
+            let tags: &[&'static str] = if auth_ok { &["C18"] } else { &["C18", "C07"] };
+            must_fail(ctx, &res, tags, &format!("deploy_remote/accepted:{}", why), why);
             return;
         }
         if !auth_ok {
